@@ -9,6 +9,10 @@ for d in sorted((VERIF / "seeded").iterdir()):
     if not m.exists():
         continue
     meta = json.loads(m.read_text())
+    if meta.get("obsolete"):
+        rows.append((d.name, meta.get("property"), meta.get("summary", "")[:160].replace("|", "/"),
+                     meta.get("needs", "")[:140].replace("|", "/"), "obsolete: " + meta["obsolete"]["reason"], "-"))
+        continue
     conf = meta.get("confirmation", {})
     checks = conf.get("checks", {})
     caught = []
